@@ -2,7 +2,7 @@
    Tree/FollowProofsLoadTop.v are [F] theorems (tables_ok_real, real_sn_chars, real_ref_chars, RefChars_real). *)
 From AV Require Import Base.Bytes Base.Outcome Hash.HashModel Spec.SpecOps Spec.SpecReal Tree.Heap Tree.Ops Tree.Script Tree.Load
   Tree.Inv Tree.Index Tree.Refs Tree.Follow Tree.FollowL Tree.InvProofsLoadLive Tree.InvProofsRealTables
-  Tree.FollowProofsLoadMain Tree.FollowProofsLoadTop.
+  Tree.FollowProofsLoadMain Tree.FollowProofsLoadTop Tree.FollowProofsLoadKeepRefs Tree.MergeSpec.
 From AV Require Xml.Lexer Xml.Parser Xml.TablesOkReal Xml.LoadRecordsExamples.
 Open Scope list_scope.
 Open Scope N_scope.
@@ -24,3 +24,17 @@ Proof.
   apply load_then_rename;
     [exact TablesOkReal.tables_ok_real|exact LoadRecordsExamples.real_sn_chars|exact LoadRecordsExamples.real_ref_chars|exact RefChars_real].
 Qed.
+
+Theorem load_buffer_origins_real (tab_el tab_at tab_en : nametab) (check_fn : N -> list N -> res bool)
+        (float_parse : list N -> option N) (LATEST name_definition_ref : N)
+        m buffer filename strict w x f ws w' :
+  nth_opt (w_models w) (N.to_nat m) = Some x -> NoDupKeys (m_origins x) ->
+  m_load_buffer RT tab_el tab_at tab_en check_fn float_parse LATEST name_definition_ref m buffer filename strict w = Val (OK (f, ws), w') ->
+  exists root st t x',
+    Parser.load strict RT tab_el tab_at tab_en check_fn float_parse buffer = Val (Parser.Ret root st) /\
+    nth_opt (w_models w') (N.to_nat m) = Some x' /\ NoDupKeys (m_origins x') /\
+    (forall p e, In e (origins_of x p) -> In e (origins_of x' p)) /\
+    (forall p e, In e (origins_of x' p) <->
+                 In e (origins_of x p) \/ exists pos, In (p, pos) (refs_of RT [] root) /\ it_at t pos = Some e) /\
+    (forall m2, m2 <> m -> nth_opt (w_models w') (N.to_nat m2) = nth_opt (w_models w) (N.to_nat m2)).
+Proof. apply load_buffer_origins; [exact TablesOkReal.tables_ok_real|exact LoadRecordsExamples.real_ref_chars]. Qed.
